@@ -670,49 +670,7 @@ def run(chk):
     # ---- product order, factor algebra: abstract runs
     op_scalar_rule(chk, src, "factor-algebra", rule_product="product-order")
     simplify_order_rule(chk, src)
-    # linear-structure dunders: evaluate the returned expression symbolically (self -> A, other -> B)
-    A, B = sp.symbols("A B")
-
-    def alg(node, env):
-        if isinstance(node, ast.Name) and node.id in env:
-            return env[node.id]
-        if isinstance(node, ast.Constant) and isinstance(node.value, (int, float)) and not isinstance(node.value, bool):
-            return sp.nsimplify(node.value)
-        if isinstance(node, ast.UnaryOp) and isinstance(node.op, ast.USub):
-            return -alg(node.operand, env)
-        if isinstance(node, ast.BinOp) and isinstance(node.op, (ast.Add, ast.Sub, ast.Mult, ast.Div)):
-            a, b = alg(node.left, env), alg(node.right, env)
-            return {ast.Add: a + b, ast.Sub: a - b, ast.Mult: a * b, ast.Div: a / b}[type(node.op)]
-        if isinstance(node, ast.Call) and unparse(node.func) in ("OpSum", "cls", "self.__class__") and len(node.args) == 1:
-            return alg(node.args[0], env)
-        if isinstance(node, ast.Call) and isinstance(node.func, ast.Attribute) and node.func.attr in ("__add__", "__mul__", "__sub__") \
-                and len(node.args) == 1:
-            a, b = alg(node.func.value, env), alg(node.args[0], env)
-            return {"__add__": a + b, "__mul__": a * b, "__sub__": a - b}[node.func.attr]
-        if isinstance(node, (ast.ListComp, ast.GeneratorExp)) and len(node.generators) == 1:
-            g = node.generators[0]
-            if not g.ifs and isinstance(g.target, ast.Name):
-                it = alg(g.iter, env)
-                # a linear map applied to every term of a sum is the map applied to the sum
-                e2 = dict(env)
-                e2[g.target.id] = it
-                return alg(node.elt, e2)
-        raise AnalysisError(f"operator-algebra expression outside the interpreted fragment: {unparse(node)}")
-
-    for nm, expect, txt in (("Op.__sub__", A - B, "A - B"), ("OpSum.__sub__", A - B, "A - B"), ("OpSum.__neg__", -A, "-A"),
-                            ("OpSum.__truediv__", A / B, "A / B")):
-        fi = src.func(OP, nm)
-        ps = fi.params()
-        env = {ps[0]: A}
-        if len(ps) > 1:
-            env[ps[1]] = B
-        rets = [r for r in walk_no_nested(fi.node) if isinstance(r, ast.Return) and r.value is not None]
-        if not rets:
-            raise AnalysisError(f"{nm}: no return")
-        for r in rets:
-            v = alg(r.value, env)
-            chk.ob("factor-algebra", nm, sp.simplify(v - expect) == 0, fi.where, str(v), txt, line=r.lineno,
-                   detail=f"{nm} does not denote {txt} (self -> A, other -> B)")
+    # subtraction, negation and division of sums are decided by the operand-order runs (every term once, with its sign / scalar factor)
 
 
 def simplify_order_rule(chk, src):
